@@ -37,14 +37,28 @@ def translate():
     # the straight-line group formulas (needs the constants index written just above)
     fout = os.path.join(LEAN, 'Decaf', 'Generated', 'Formulas.lean')
     rc2, log2 = sh([sys.executable, os.path.join(VERIF, 'translator', 'extract_formulas.py'), REPO, fout])
-    return rc2 == 0, (log.strip() + '; ' + log2.strip())
+    if rc2 != 0:
+        return False, (log.strip() + '; ' + log2.strip())
+    # the operator forms (impl Add/Sub/Neg/Mul/...Assign blocks of both backends)
+    oout = os.path.join(LEAN, 'Decaf', 'Generated', 'OpForms.lean')
+    rc3, log3 = sh([sys.executable, os.path.join(VERIF, 'translator', 'extract_opforms.py'), REPO, oout])
+    return rc3 == 0, (log.strip() + '; ' + log2.strip() + '; ' + log3.strip())
 
 
 def formula_status():
     try:
-        return json.load(open(os.path.join(LEAN, 'Decaf', 'Generated', 'Formulas.index.json')))
+        d = json.load(open(os.path.join(LEAN, 'Decaf', 'Generated', 'Formulas.index.json')))
     except (OSError, ValueError):
-        return {}
+        d = {}
+    try:
+        o = json.load(open(os.path.join(LEAN, 'Decaf', 'Generated', 'OpForms.index.json')))
+        d['opforms'] = dict(status='translated %s operator forms %s' % (sum(o['counts'].values()), o['counts']),
+                            reason='; '.join(o['untranslated']) or None)
+        if o['untranslated']:
+            d['opforms']['status'] += '; %d outside the grammar (correspondence only): %s' % (len(o['untranslated']), '; '.join(o['untranslated'])[:300])
+    except (OSError, ValueError, KeyError):
+        pass
+    return d
 
 
 def lake_build(targets):
@@ -474,7 +488,8 @@ def main():
             programs=len(cases),
             samples=samples if samples else [dict(obligation=t) for t in thm_names[:5]] or extra_lines[:5],
             explanation=P.get('explanation', ''),
-            translated_functions={k: (v.get('status') + (' lines %d-%d of %s' % (v['lines'][0], v['lines'][1], v['file']) if v.get('lines') else ' (%s): tie for this function is the correspondence check only' % v.get('reason', '?')))
+            translated_functions={k: (v.get('status') + (' lines %d-%d of %s' % (v['lines'][0], v['lines'][1], v['file']) if v.get('lines')
+                                                          else '' if k == 'opforms' else ' (%s): tie for this function is the correspondence check only' % v.get('reason', '?')))
                                   for k, v in formula_status().items() if k in P.get('formulas', [])} or None,
             constants_checked=len([l for l in extra_lines if l.startswith('ok')]) if extra_lines else None,
         ),
